@@ -83,7 +83,10 @@ def main():
                 "/repo (nothing from /verif): `patch.diff`, the author's `demo.sh` and `notes.md`, and `meta.json` (property, what the change needs\n"
                 "to manifest, what was run, and how the quick check reacted). Every change compiles, passes the pinned 256-test suite, and makes its\n"
                 "demonstration fail while the unchanged tree passes it — confirmed by `tools/mutant_eval.py` in a scratch worktree, never in /repo.\n"
-                "Regenerate this file with `tools/seeded_summary.py` after `tools/mutant_eval.py <dir with the agents' output>`.\n\n"
+                "Ids <Cxx>-1, -2: first round of seeding (written against the tree before the repairs; where a repair touched the same lines the change was\n"
+                "ported by hand, see the remarks below); <Cxx>-3, -4: second round, written against HEAD 1083010 by authors who were given the titles of\n"
+                "round 1 to do something different. Regenerate this file with `tools/seeded_summary.py` after `tools/mutant_eval.py <dir with the agents' output>`\n"
+                "(`MUT_OFFSET=2` for round 2).\n\n"
                 "| id | status | change | quick check (seed 1) |\n|---|---|---|---|\n")
         for d, st, title, how, line in rows:
             f.write("| %s | %s | %s | %s |\n" % (d, st, title.replace("|", "/"), how))
